@@ -3,33 +3,40 @@
    label sequence observed on the real implementation). *)
 From stdpp Require Import gmap.
 From Coq Require Import NArith.
-From GoRes Require Export Sched.Spec.
+From GoRes Require Export Sched.Spec Sched.Access.
 
 Record scase := SC {
   sc_trace : list label;
   sc_group : list (N * N);      (* callback id -> group (0 = empty group) *)
-  sc_complete : bool            (* the run ended quiescent with the service started and never shut down *)
+  sc_complete : bool;           (* the run ended quiescent with the service started (last cycle not shut down) *)
+  sc_table : list acc           (* non-empty only for the one structural case: the access table extracted from the source *)
 }.
 
-Definition grp (c : scase) (cb : N) : N :=
-  match list_find (fun x => N.eqb (fst x) cb) (sc_group c) with Some (_, (_, g)) => g | None => 0%N end.
+Definition grp_map (c : scase) : gmap N N := list_to_map (sc_group c).
+Definition grp_in (m : gmap N N) (cb : N) : N := default 0%N (m !! cb).
+Definition grp (c : scase) (cb : N) : N := grp_in (grp_map c) cb.
 
 (* correspondence: the model accepts the observed label sequence; code = 1 + index of the refused label *)
+(* code 1000000: the atomic steps of the LTS are not single critical sections in the source any more
+   (Sched/Access.v granularity_ok on the table extracted by go/ast from the current tree) *)
 Definition sched_mismatch (c : scase) : list N :=
-  match first_reject init (sc_trace c) 0 with Some i => [N.of_nat (S i)] | None => [] end.
+  match first_reject init (sc_trace c) 0 with Some i => [N.of_nat (S i)] | None => [] end ++
+  match sc_table c with [] => [] | t => if granularity_ok t then [] else [1000000%N] end.
 
 (* ---- C01 monitor: never two executing callbacks of one group <> 0 ---- *)
-Fixpoint mon_mutex (c : scase) (running : list (nat * N)) (tr : list label) : bool :=
+Fixpoint mon_mutex_go (m : gmap N N) (running : list (nat * N)) (tr : list label) : bool :=
   match tr with
   | [] => true
   | LStart k cb :: tr' =>
-    let g := grp c cb in
+    let g := grp_in m cb in
     if negb (N.eqb g 0) && existsb (fun x => N.eqb (snd x) g) running then false
-    else mon_mutex c ((k, g) :: running) tr'
-  | LEnd k _ :: tr' => mon_mutex c (filter (fun x => negb (Nat.eqb (fst x) k)) running) tr'
-  | LServeInit _ :: tr' => mon_mutex c [] tr'
-  | _ :: tr' => mon_mutex c running tr'
+    else mon_mutex_go m ((k, g) :: running) tr'
+  | LEnd k _ :: tr' => mon_mutex_go m (filter (fun x => negb (Nat.eqb (fst x) k)) running) tr'
+  | LServeInit _ :: tr' => mon_mutex_go m [] tr'
+  | _ :: tr' => mon_mutex_go m running tr'
   end.
+Definition mon_mutex (c : scase) (running : list (nat * N)) (tr : list label) : bool :=
+  mon_mutex_go (grp_map c) running tr.
 
 (* ---- C02 monitor ---- *)
 (* accepted callbacks in acceptance order, started callbacks in start order *)
@@ -59,16 +66,42 @@ Fixpoint nodupN (l : list N) : bool :=
 Fixpoint list_eqN (a b : list N) : bool :=
   match a, b with [], [] => true | x :: a', y :: b' => N.eqb x y && list_eqN a' b' | _, _ => false end.
 Definition groups_of (c : scase) : list N := remove_dups (map snd (sc_group c)).
-Definition of_group (c : scase) (g : N) (l : list N) : list N := filter (fun cb => N.eqb (grp c cb) g) l.
+Definition of_group (c : scase) (g : N) (l : list N) : list N := let m := grp_map c in filter (fun cb => N.eqb (grp_in m cb) g) l.
 (* codes: 1 a callback started twice / not accepted; 2 order of a group differs from acceptance order;
           3 complete run but an accepted callback never started *)
+(* callbacks accepted / started in the LAST serve cycle of the trace (after the last LServeInit);
+   a producer that passed the started-check in an earlier cycle still counts when it enqueues in the last one *)
+Fixpoint count_inits (tr : list label) : nat :=
+  match tr with [] => O | LServeInit _ :: r => S (count_inits r) | _ :: r => count_inits r end.
+Fixpoint accepted_last (k : nat) (pend : list (N * N)) (tr : list label) : list N :=
+  match tr with
+  | [] => []
+  | LServeInit _ :: tr' => accepted_last (Nat.pred k) pend tr'
+  | LCheck p _ cb true :: tr' => accepted_last k ((p, cb) :: pend) tr'
+  | LEnq p r :: tr' =>
+    match list_find (fun x => N.eqb (fst x) p) pend with
+    | Some (_, (_, cb)) =>
+      let pend' := filter (fun x => negb (N.eqb (fst x) p)) pend in
+      match r with
+      | EClosing => accepted_last k pend' tr'
+      | _ => (if Nat.eqb k 0 then [cb] else []) ++ accepted_last k pend' tr'
+      end
+    | None => accepted_last k pend tr'
+    end
+  | _ :: tr' => accepted_last k pend tr'
+  end.
+Definition memb (S : gset N) (x : N) : bool := bool_decide (x ∈ S).
 Definition mon_fifo (c : scase) : list N :=
-  let acc := accepted [] (sc_trace c) in
+  let accd := accepted [] (sc_trace c) in
   let st := started_cbs (sc_trace c) in
-  (if nodupN st && forallb (fun cb => existsb (N.eqb cb) acc) st then [] else [1%N]) ++
-  (if forallb (fun g => N.eqb g 0 || is_sublist (of_group c g st) (of_group c g acc)) (groups_of c) then [] else [2%N]) ++
-  (if sc_complete c && negb (forallb (fun cb => existsb (N.eqb cb) st) acc) then [3%N] else []) ++
-  (if sc_complete c && negb (forallb (fun g => N.eqb g 0 || list_eqN (of_group c g st) (of_group c g acc)) (groups_of c)) then [2%N] else []).
+  let accl := accepted_last (count_inits (sc_trace c)) [] (sc_trace c) in
+  let stS : gset N := list_to_set st in
+  let accS : gset N := list_to_set accd in
+  (if sc_complete c && negb (forallb (memb stS) accl) then [3%N] else []) ++
+  (if Nat.eqb (size stS) (length st) && forallb (memb accS) st then [] else [1%N]) ++
+  (if forallb (fun g => N.eqb g 0 || is_sublist (of_group c g st) (of_group c g accd)) (groups_of c) then [] else [2%N]) ++
+  (if sc_complete c && negb (has_close (sc_trace c)) && negb (forallb (memb stS) accd) then [3%N] else []) ++
+  (if sc_complete c && negb (has_close (sc_trace c)) && negb (forallb (fun g => N.eqb g 0 || list_eqN (of_group c g st) (of_group c g accd)) (groups_of c)) then [2%N] else []).
 
 (* ---- C03 monitor ----
    codes: 1 a callback started while the service was stopped (after LStopped, before LServeStarted)
